@@ -43,12 +43,13 @@ type tblInfo struct {
 }
 
 type dbStep struct {
-	Op    string  `json:"op"` // put putb del delb get getb rotate compact reopen
-	K     []byte  `json:"k,omitempty"`
-	V     []byte  `json:"v,omitempty"`
-	KNil  bool    `json:"knil,omitempty"`
-	VNil  bool    `json:"vnil,omitempty"`
-	Opts  *dbOpts `json:"opts,omitempty"` // for reopen
+	Op   string  `json:"op"` // put putb del delb get getb rotate compact reopen
+	K    []byte  `json:"k,omitempty"`
+	V    []byte  `json:"v,omitempty"`
+	KNil bool    `json:"knil,omitempty"`
+	VNil bool    `json:"vnil,omitempty"`
+	Opts *dbOpts `json:"opts,omitempty"` // for reopen
+	Torn int     `json:"torn,omitempty"` // for reopen: 1+n = before Open, a newest WAL file with only n (0..7) bytes of its header is planted
 	// observations
 	Err      string    `json:"err,omitempty"`
 	Val      []byte    `json:"val,omitempty"`
@@ -192,6 +193,21 @@ func (r *dbRunner) step(s *dbStep) {
 		o := r.opts
 		if s.Opts != nil {
 			o = *s.Opts
+		}
+		if s.Torn > 0 {
+			// what a kill between the creation of a WAL file and the write of its header leaves behind
+			wd := filepath.Join(r.dir, "wal")
+			os.MkdirAll(wd, 0700)
+			ents, _ := os.ReadDir(wd)
+			next := 0
+			for _, e := range ents {
+				var n int
+				if _, err := fmt.Sscanf(e.Name(), "%06d.wal", &n); err == nil && n >= next {
+					next = n + 1
+				}
+			}
+			hdr := []byte{4, 0, 0, 0, 1, 0, 0, 0}
+			os.WriteFile(filepath.Join(wd, fmt.Sprintf("%06d.wal", next)), hdr[:s.Torn-1], 0600)
 		}
 		if err := r.open(o); err != nil {
 			s.Err = "Open:" + err.Error()
